@@ -332,7 +332,7 @@ fn main() {
             let mut vals = vec![Value::Marker, Value::Remove, Value::Na, Value::Null, Value::make_true(), Value::make_false()];
             for a in strs { vals.push(Value::make_str(a)); vals.push(Value::make_ref_with_dis("r", a)); vals.push(Value::make_xstr_from("Bin", a)); }
             for a in ["a", "a.b:c-d~e_f", "x1"] { vals.push(Value::make_ref(a)); vals.push(Value::make_symbol(a)); }
-            for a in ["/a/b", "http://x/é?q=1#f", "a`b", "a😀"] { vals.push(Value::make_uri(a)); }
+            for a in ["/a/b", "http://x/é?q=1#f", "a`b", "a😀", "a\\b", "\\", "a\\:b\\`c", "[x]@y&z=1;2"] { vals.push(Value::make_uri(a)); }
             for v in &vals {
                 let z = v.to_zinc_string();
                 let back = z.as_ref().ok().map(|z| from_str(z));
